@@ -134,13 +134,13 @@ Lemma bP_three b p q r : bP b [p; q; r] = bP1 (bP1 (bP1 b p) q) r. Proof. reflex
 (** the text [column] writes for a generated column (no DEFAULT, not AUTOINCREMENT) *)
 Lemma p_column_generated x bb c e ty :
   bb <> [] -> c_gen c = Some (e, ty) -> has_autoinc x (c_name c) = false -> c_default c = None ->
-  c_class c <> 0 -> c_name c <> [] -> type_ok (c_T c) -> may_wrap e <> [] -> N.eqb (last_byte (may_wrap e)) 32 = false ->
+  c_class c <> 0 -> name_ok (c_name c) -> type_ok (c_T c) -> may_wrap e <> [] -> N.eqb (last_byte (may_wrap e)) 32 = false ->
   exists tail, tail <> [] /\
     p_column x bb c = Some ((bb ++ bt_ident (c_name c) ++ [32] ++ c_T c ++ [32] ++ W_NOT_NULL_text (c_null c) ++ K_AS ++ [32] ++ may_wrap e) ++ tail).
 Proof.
-  intros Hbb Hg Ha Hd Hcls Hn (HT1 & HT2 & _) He1 He2. unfold p_column.
+  intros Hbb Hg Ha Hd Hcls [Hn Hnw] (HT1 & HT2 & _) He1 He2. unfold p_column.
   apply N.eqb_neq in Hcls. rewrite Hcls, Hd, Ha, Hg. rewrite bP_three, !bP_one.
-  unfold bIdent. destruct (c_name c) as [|n0 n] eqn:En; [contradiction|]. rewrite <- En.
+  unfold bIdent. rewrite (esc_ident_word _ Hnw). destruct (c_name c) as [|n0 n] eqn:En; [contradiction|]. rewrite <- En.
   set (b0 := bb ++ ch_bt :: c_name c ++ [ch_bt; 32]).
   assert (b0 <> []) as Hb0 by (unfold b0; destruct bb; discriminate).
   assert (last_byte b0 = 32) as Hl0.
@@ -248,7 +248,7 @@ Qed.
 (** where the generated column [c] of a table ends up in the printed CREATE TABLE *)
 Theorem gen_column_in_table x cols1 c cols2 e ty txt :
   t_cols (x_t x) = cols1 ++ c :: cols2 -> c_gen c = Some (e, ty) -> has_autoinc x (c_name c) = false ->
-  c_default c = None -> c_class c <> 0 -> c_name c <> [] -> type_ok (c_T c) ->
+  c_default c = None -> c_class c <> 0 -> name_ok (c_name c) -> type_ok (c_T c) ->
   may_wrap e <> [] -> is_go_space (last_byte (may_wrap e)) = false ->
   print_table x = Some txt ->
   exists pre c0 sp1 rest,
@@ -310,7 +310,7 @@ Theorem set_gen_expr_print_table x cols1 c cols2 e ty txt :
 Proof.
   intros Hcols Hg Ha Hd Hcls Hn HT Hw Hpt.
   destruct (wrapped_ends _ Hw) as [He1 He2].
-  destruct (gen_column_in_table x cols1 c cols2 e ty txt Hcols Hg Ha Hd Hcls (proj1 Hn) HT He1 He2 Hpt)
+  destruct (gen_column_in_table x cols1 c cols2 e ty txt Hcols Hg Ha Hd Hcls Hn HT He1 He2 Hpt)
     as (pre & c0 & sp1 & rest & -> & Hc0 & Hsp).
   exists (length pre), rest. intros Hns Hlast.
   apply (set_gen_expr_printed (c_name c) pre c0 sp1 32 (c_T c ++ [32] ++ W_NOT_NULL_text (c_null c)) [32] (may_wrap e) rest);
@@ -321,12 +321,12 @@ Qed.
 (** ** the AUTOINCREMENT column *)
 Lemma p_column_autoinc x bb c :
   bb <> [] -> c_gen c = None -> has_autoinc x (c_name c) = true -> c_default c = None ->
-  c_class c <> 0 -> c_name c <> [] -> type_ok (c_T c) ->
+  c_class c <> 0 -> name_ok (c_name c) -> type_ok (c_T c) ->
   p_column x bb c = Some ((bb ++ bt_ident (c_name c) ++ [32] ++ c_T c ++ [32] ++ W_NOT_NULL_text (c_null c) ++ W_PK_AUTOINC) ++ [32]).
 Proof.
-  intros Hbb Hg Ha Hd Hcls Hn (HT1 & HT2 & _). unfold p_column.
+  intros Hbb Hg Ha Hd Hcls [Hn Hnw] (HT1 & HT2 & _). unfold p_column.
   apply N.eqb_neq in Hcls. rewrite Hcls, Hd, Ha, Hg. rewrite !bP_one.
-  unfold bIdent. destruct (c_name c) as [|n0 n] eqn:En; [contradiction|]. rewrite <- En.
+  unfold bIdent. rewrite (esc_ident_word _ Hnw). destruct (c_name c) as [|n0 n] eqn:En; [contradiction|]. rewrite <- En.
   set (b0 := bb ++ ch_bt :: c_name c ++ [ch_bt; 32]).
   assert (b0 <> []) as Hb0 by (unfold b0; destruct bb; discriminate).
   assert (last_byte b0 = 32) as Hl0.
@@ -371,7 +371,7 @@ Proof.
   set (bb := if is_nil cols1 then b1 else bComma b1) in *.
   assert (good 67 bb) as Gbb by (unfold bb; destruct (is_nil cols1); [exact G1|apply good_bComma; exact G1]).
   assert (bb <> []) as Hbbn by (destruct Gbb as (r & -> & _); discriminate).
-  rewrite (p_column_autoinc x bb c Hbbn Hg Ha Hd Hcls (proj1 Hn) HTo) in Hpt.
+  rewrite (p_column_autoinc x bb c Hbbn Hg Ha Hd Hcls Hn HTo) in Hpt.
   set (P := bb ++ bt_ident (c_name c) ++ [32] ++ c_T c ++ [32] ++ W_NOT_NULL_text (c_null c) ++ W_PK_AUTOINC) in *.
   assert (kept P (P ++ [32])) as K0 by (exists [32]; split; [reflexivity|discriminate]).
   destruct (p_columns x (P ++ [32]) false cols2) as [bc|] eqn:E2; [|discriminate].
